@@ -80,11 +80,40 @@ impl QueryCaller {
     }
 }
 
+/// The queries whose transitive firewall callees are being repaired on the
+/// way to the current request, innermost first.
+#[derive(Debug)]
+pub struct FirewallRepairChain {
+    query_id: QueryID,
+    parent: Option<Arc<Self>>,
+}
+
+impl FirewallRepairChain {
+    pub const fn new(query_id: QueryID, parent: Option<Arc<Self>>) -> Self {
+        Self { query_id, parent }
+    }
+
+    pub fn contains(&self, query_id: &QueryID) -> bool {
+        let mut current = Some(self);
+
+        while let Some(chain) = current {
+            if chain.query_id == *query_id {
+                return true;
+            }
+
+            current = chain.parent.as_deref();
+        }
+
+        false
+    }
+}
+
 #[derive(Debug, Clone)]
 pub struct CallerInformation {
     kind: CallerKind,
     timestamp: Timestamp,
     active_computation_guard: Option<ActiveComputationGuard>,
+    firewall_repair_chain: Option<Arc<FirewallRepairChain>>,
 }
 
 impl CallerInformation {
@@ -93,7 +122,28 @@ impl CallerInformation {
         timestamp: Timestamp,
         active_computation_guard: Option<ActiveComputationGuard>,
     ) -> Self {
-        Self { kind, timestamp, active_computation_guard }
+        Self {
+            kind,
+            timestamp,
+            active_computation_guard,
+            firewall_repair_chain: None,
+        }
+    }
+
+    #[must_use]
+    pub fn with_firewall_repair_chain(
+        mut self,
+        chain: Arc<FirewallRepairChain>,
+    ) -> Self {
+        self.firewall_repair_chain = Some(chain);
+        self
+    }
+
+    #[must_use]
+    pub const fn firewall_repair_chain(
+        &self,
+    ) -> Option<&Arc<FirewallRepairChain>> {
+        self.firewall_repair_chain.as_ref()
     }
 
     #[must_use]
